@@ -50,6 +50,22 @@ pub fn set_loss_policy(modulus: u64, residue: u64) {
   LOSS_DROPPED.store(0, Ordering::SeqCst);
   LOSS_MOD.store(modulus, Ordering::SeqCst);
 }
+static LOSS_HASHED: std::sync::atomic::AtomicBool = std::sync::atomic::AtomicBool::new(false);
+
+fn splitmix64(mut x: u64) -> u64 {
+  x = x.wrapping_add(0x9E37_79B9_7F4A_7C15);
+  x = (x ^ (x >> 30)).wrapping_mul(0xBF58_476D_1CE4_E5B9);
+  x = (x ^ (x >> 27)).wrapping_mul(0x94D0_49BB_1331_11EB);
+  x ^ (x >> 31)
+}
+
+/// Deterministic aperiodic loss at rate 1/modulus: datagram k is dropped when
+/// splitmix64(k, pattern) mod modulus == 0. `pattern` selects one of the enumerated patterns.
+pub fn set_loss_pattern(modulus: u64, pattern: u64) {
+  set_loss_policy(modulus, pattern);
+  LOSS_HASHED.store(modulus != 0, Ordering::SeqCst);
+}
+
 pub fn loss_stats() -> (u64, u64) {
   (
     LOSS_CTR.load(Ordering::SeqCst),
@@ -85,7 +101,16 @@ pub fn intercept(buffer: &[u8], locator: &Locator) -> bool {
     // only unicast user/meta traffic is subject to loss; multicast SPDP too -
     // the policy is index based and does not look at the content.
     let k = LOSS_CTR.fetch_add(1, Ordering::SeqCst);
-    if k % m == LOSS_RES.load(Ordering::Relaxed) {
+    let r = LOSS_RES.load(Ordering::Relaxed);
+    let drop = if LOSS_HASHED.load(Ordering::Relaxed) {
+      // aperiodic: a strictly periodic pattern can lock onto the protocol's own period
+      // (e.g. HEARTBEAT, ACKNACK, DATA repeating with the same residue) and starve one message kind for ever,
+      // which is not "loss up to a fixed rate"
+      splitmix64(k ^ r.wrapping_mul(0x9E37_79B9_7F4A_7C15)) % m == 0
+    } else {
+      k % m == r
+    };
+    if drop {
       LOSS_DROPPED.fetch_add(1, Ordering::SeqCst);
       return true;
     }
